@@ -112,19 +112,23 @@ theorem waveforms_eq (wfs : List Mat) (inds : List (List Nat))
       ((wfs.getD t []).getD s []).getD ((inds.getD t []).getD j 0) 0 :=
   Lemmas.waveforms_eq wfs inds t s j hj
 
-/-- WHICH ids are blanked in `clusters.depths`: exactly the ids below the number of clusters that NO SPIKE is assigned
-to — computed from the spike assignment, not a list handed in. -/
-theorem spikeless_ids_spec (n : Nat) (sc : List Nat) (c : Nat) :
+/-- Membership in the blanked list, by unfolding `spikelessIds` (a `filter` over `range n`): the ids `clusters.depths`
+blanks are exactly the ids below the number of clusters that NO SPIKE is assigned to — the list is computed from the
+spike assignment, not handed in.  (Definitional; formerly `spikeless_ids_spec`.) -/
+theorem mem_spikelessIds (n : Nat) (sc : List Nat) (c : Nat) :
     c ∈ spikelessIds n sc ↔ c < n ∧ c ∉ sc :=
   Lemmas.mem_spikelessIds n sc c
 
-/-- … and for a curated dataset (`n_clusters` = highest id + 1, C13 `cluster_count_rule`) that list IS the model's
-`nan_idx` (C08 `nanIdx` of the merge map, characterised by C08 `nanIdx_spec`): the composition with C08.  For an
-un-curated dataset `model.nan_idx` is `[]` (model.py:425) whatever the templates without spikes — `make_depths` must
-not (and, repaired, does not) take its list from there. -/
-theorem blanked_ids_eq_nanIdx (st sc : List Nat) (hlen : st.length = sc.length) :
-    spikelessIds (sc.foldl max 0 + 1) sc = C08.nanIdx (C08.mergeMap st sc) :=
-  Lemmas.spikelessIds_eq_nanIdx st sc hlen
+/-- … and for a CURATED dataset (`hcur`: the cluster assignment differs from the template assignment; then `n_clusters`
+= highest id + 1, C13 `cluster_count_rule`) with at least one spike (`hne`: the loader takes the maximum of the ids)
+that list IS the model's `nan_idx` (`modelNanIdx`, model.py:418-428: C08 `nanIdx` of the merge map, characterised by
+C08 `nanIdx_spec`): the composition with C08.  Both hypotheses are needed for the sentence to be true of
+`model.nan_idx`: for an UN-curated dataset `model.nan_idx` is `[]` (model.py:425) whatever the templates without
+spikes (`st = sc = [0,2,2,0]`: ids without spikes `[1]`, `modelNanIdx = []`) — `make_depths` must not (and, repaired,
+does not) take its list from there; for no spike at all the left side would be `[0]`. -/
+theorem blanked_ids_eq_nanIdx (st sc : List Nat) (hlen : st.length = sc.length) (hcur : sc ≠ st) (hne : sc ≠ []) :
+    spikelessIds (sc.foldl max 0 + 1) sc = modelNanIdx st sc :=
+  Lemmas.blanked_ids_eq_nanIdx st sc hlen hcur hne
 
 set_option linter.unusedVariables false in
 /-- Cluster depths are the depth of the cluster's peak channel, NaN EXACTLY for the ids without spikes (curated or
@@ -183,10 +187,11 @@ theorem amp_files_entries (dT dC : Data) (f : Rat) (indsT indsC : List (List Nat
     (exportAmpFiles dT dC f indsT indsC).clustersAmps.length = dC.wfsW.length :=
   Lemmas.amp_files_entries dT dC f indsT indsC haT haC hsT hsC
 
-/-- **what the driver evaluates IS the export model** — the op `amp_files` runs `exportAmpFilesOnce`
-(`templates_amps_au` and the unwhitened waveforms bound once, as model.py:1139-1146 does; needed for recordings of
-tens of thousands of spikes), which is `exportAmpFiles` for every input: every theorem below about `exportAmpFiles`
-speaks about the values compared with the real files. -/
+/-- What the driver evaluates is the export model, BY `rfl`: the op `amp_files` runs `exportAmpFilesOnce`
+(`templates_amps_au` and the unwhitened waveforms `let`-bound once, in the order of model.py:1139-1146; needed for
+recordings of tens of thousands of spikes), which unfolds to `exportAmpFiles` definitionally.  This is bookkeeping about
+the two Lean definitions (no content about the real code): it only transfers the theorems about `exportAmpFiles` to
+the values the driver prints. -/
 theorem amp_files_once_eq (dT dC : Data) (f : Rat) (indsT indsC : List (List Nat)) :
     exportAmpFilesOnce dT dC f indsT indsC = exportAmpFiles dT dC f indsT indsC :=
   exportAmpFilesOnce_eq dT dC f indsT indsC
@@ -400,7 +405,9 @@ example : exportClusterDepths [10, 20, 40] [2, 0, 1] [0, 2, 2, 0] = [some 40, no
 example : (exportClusterDepths [10, 20, 40] [2, 0, 1] [0, 2, 2, 0]).getD 1 none = none := by
   rw [(cluster_depth_eq [10, 20, 40] [2, 0, 1] [0, 2, 2, 0] (by decide) (by decide) 1 (by decide)).1]; decide
 example : spikelessIds ([4, 0, 4, 2, 2, 4].foldl max 0 + 1) [4, 0, 4, 2, 2, 4] = [1, 3] := by
-  rw [blanked_ids_eq_nanIdx [0, 0, 1, 2, 2, 1] [4, 0, 4, 2, 2, 4] (by decide)]; decide
+  rw [blanked_ids_eq_nanIdx [0, 0, 1, 2, 2, 1] [4, 0, 4, 2, 2, 4] (by decide) (by decide) (by decide)]; decide
+-- outside `hcur` the two lists differ: nothing curated, template 1 without spikes
+example : spikelessIds ([0, 2, 2, 0].foldl max 0 + 1) [0, 2, 2, 0] = [1] ∧ modelNanIdx [0, 2, 2, 0] [0, 2, 2, 0] = [] := by decide
 -- no features / features for 2 of 4 spikes: the cluster depth, never NaN
 example : exportSpikeDepths none [10, 20, 40] [2, 0, 1] [0, 2, 2, 0] [0, 2, 2, 0] =
     [some 40, some 20, some 20, some 40] := by decide +kernel
